@@ -7,6 +7,7 @@ CONSTANTS
   LookupTol = "exact"
   DoEmit = TRUE
 INVARIANT Theorems
+INVARIANT Theorems2
 INVARIANT LookupRight
 CONSTRAINT Emit
 CHECK_DEADLOCK FALSE
